@@ -565,7 +565,7 @@ func TestVerifC04Random(t *testing.T) {
 	m := c04NewMachine(t, out)
 	m.enc = json.NewEncoder(w)
 	defer m.install()()
-	flagBits := []int{0, 1, 2, 3, 4, 8, 9, 63}
+	flagBits := []int{0, 1, 2, 3, 4, 5, 6, 7, 8, 9, 63} // every declared PageTableEntryFlag bit (7 = FlagHugePage = PAT on a 4K leaf)
 	sizes := []uint64{0, 1, 4095, 4096, 4097, 8191, 8192, 8193, 12287, 12288}
 	for tr := 0; tr < ntr; tr++ {
 		u, pages, idrun, window := c04Universe(rng)
